@@ -65,7 +65,7 @@ struct Worker
   std::thread th;
   std::mutex m;
   std::condition_variable cv;
-  int cmd{0}; // 0 idle, 1 log, 2 exit
+  int cmd{0}; // 0 idle, 1 log, 2 exit, 3 flush_log
   unsigned n{0};
   int logger{0};
   bool done{false};
@@ -130,8 +130,10 @@ void run_case(Choices& c, Report& r)
           if (w->cmd == 2) return;
           unsigned n = w->n;
           int li = w->logger;
+          bool const is_flush = w->cmd == 3;
           lk.unlock();
-          for (unsigned k = 0; k < n; ++k)
+          if (is_flush) lg[li]->flush_log();
+          for (unsigned k = 0; k < n && !is_flush; ++k)
           {
             auto const t0 = std::chrono::steady_clock::now();
             lg[li]->log_statement<false, false>(quill::LogLevel::None, &kMd, wid, w->next_seq);
@@ -174,11 +176,51 @@ void run_case(Choices& c, Report& r)
     if (!polled_once) logged_before_first_poll[static_cast<int>(t)] = true;
   };
 
-  unsigned const nops = 2 + c.pick(24);
-  for (unsigned i = 0; i < nops; ++i)
+  // C06 on the TSC clock: flush_log() from a worker while the harness keeps polling; when it returns, every statement
+  // issued before it (all of them completed: operations are sequential) must have reached the sink
+  std::string flush_error;
+  unsigned flushes = 0;
+  auto run_flush = [&](unsigned t, int li)
   {
-    switch (c.weighted({6, 3, 2, 2}))
+    Worker* w = ws[t].get();
     {
+      std::lock_guard<std::mutex> lk(w->m);
+      w->n = 0;
+      w->logger = li;
+      w->done = false;
+      w->cmd = 3;
+    }
+    w->cv.notify_all();
+    auto const t0 = std::chrono::steady_clock::now();
+    for (;;)
+    {
+      mbw->poll_one();
+      std::lock_guard<std::mutex> lk(w->m);
+      if (w->done) break;
+      if (std::chrono::steady_clock::now() - t0 > std::chrono::seconds{20}) { flush_error = "flush_log() did not return within 20 s of continuous polling"; break; }
+    }
+    polled_once = true;
+    ++flushes;
+    if (flush_error.empty() && sink->entries.size() != issued.size())
+      flush_error = "flush_log() of thread " + std::to_string(t + 1) + " returned with " + std::to_string(sink->entries.size()) + " of " +
+        std::to_string(issued.size()) + " earlier statements (all of their log calls had completed) written to the sink";
+  };
+
+  unsigned const nops = 2 + c.pick(24);
+  for (unsigned i = 0; i < nops && flush_error.empty(); ++i)
+  {
+    switch (c.weighted({6, 3, 2, 2, param_str(g_params, "prop", "C05") == "C06" ? 4u : 1u}))
+    {
+    case 4:
+    {
+      unsigned t = c.pick(nthreads);
+      int li = static_cast<int>(c.pick(2));
+      if (logged_before_first_poll.empty() && !polled_once) logs_before_first_poll_threads = 0;
+      if (!polled_once) logs_before_first_poll_threads = static_cast<unsigned>(logged_before_first_poll.size());
+      run_flush(t, li);
+      ops += "Flush(t" + std::to_string(t + 1) + (li ? ",b) " : ",a) ");
+      break;
+    }
     case 0:
     {
       unsigned t = c.pick(nthreads);
@@ -216,6 +258,15 @@ void run_case(Choices& c, Report& r)
   }
   if (!polled_once) logs_before_first_poll_threads = static_cast<unsigned>(logged_before_first_poll.size());
 
+  if (flush_error.rfind("flush_log() did not return", 0) == 0)
+  {
+    // a worker is still blocked inside flush_log(): it cannot be joined. Report, and leave the threads and their
+    // mailboxes alone (the forked case ends with _exit right after the report)
+    r.line("ops: " + ops);
+    r.fail(flush_error);
+    for (auto& w : ws) { w->th.detach(); (void)w.release(); }
+    return;
+  }
   // ---- final drain: everything is older than the grace period, then poll until the backend reports empty ----
   for (int round = 0; round < 3; ++round)
   {
@@ -244,8 +295,10 @@ void run_case(Choices& c, Report& r)
   for (auto const& s : issued) ++per_thread[s.w];
   r.nontrivial = per_thread.size() >= 2 && polls >= 1;
 
+  if (flushes) r.label("flush_log_on_tsc_clock");
   // ---- oracles ----
   if (!notes.empty()) { r.fail("backend error notifier was called: " + notes[0]); return; }
+  if (!flush_error.empty()) { r.fail(flush_error); return; }
   // exactly once, per-thread order
   std::map<int, uint32_t> next;
   for (size_t k = 0; k < sink->entries.size(); ++k)
